@@ -512,7 +512,16 @@ def e12_cache_before_recompute(ctx) -> None:
             continue
         key = norm(c.args[0]) if c.args else "?"
         gs = C.guard_texts(f, c)
-        if any((not pol) and t.startswith(f"{key} in ") for t, pol in gs) or any(pol and t.startswith(f"{key} not in ") for t, pol in gs):
+        # `x = cache.get(key)` ... `if x is None: x = self._find_rule(key)`
+        via_get = False
+        for t, pol in gs:
+            if pol and t.endswith(" is None"):
+                nm = t[: -len(" is None")]
+                for d in D.definitions(f).get(nm, []):
+                    if d[1] is not None and isinstance(d[1], ast.Call) and isinstance(d[1].func, ast.Attribute) and d[1].func.attr == "get" \
+                            and len(d[1].args) == 1 and norm(d[1].args[0]) == key and C.dominates(f, d[0], c):
+                        via_get = True
+        if via_get or any((not pol) and t.startswith(f"{key} in ") for t, pol in gs) or any(pol and t.startswith(f"{key} not in ") for t, pol in gs):
             ctx.ok("E12", "a needed key is recomputed only when the cache does not hold it")
         else:
             ctx.violation("E12", c, f"`{norm(c)}` is evaluated without `{key} not in <cache>`: cached rules are recomputed (and fail when the pack cannot make them)")
